@@ -11,7 +11,7 @@ import xml.etree.ElementTree as ET
 patch, demo, ids = sys.argv[1], sys.argv[2], sys.argv[3].split(",")
 nobase = "--no-baseline" in sys.argv
 tier = sys.argv[sys.argv.index("--tier") + 1] if "--tier" in sys.argv else "quick"
-name = os.path.basename(os.path.dirname(os.path.abspath(patch))) + "_" + os.path.basename(patch).replace(".diff", "")
+name = os.path.basename(os.path.dirname(os.path.abspath(patch))) + "_" + os.path.basename(patch).replace(".diff", "") + os.environ.get("TRY_TAG", "")
 wt = "/tmp/mut/" + name
 os.makedirs("/tmp/mut", exist_ok=True)
 subprocess.run(["git", "-C", "/repo", "worktree", "remove", "--force", wt], stderr=subprocess.DEVNULL)
